@@ -58,6 +58,7 @@ fn main() {
         "faults" => drv_rx::faults(&mut out, seed, thorough),
         "interleave" => drv_rx::interleave(&mut out, seed, thorough),
         "frames" => drv_rx::frames(&mut out, seed, thorough),
+        "rxscn" => drv_rx::rxscn(&mut out, scn.as_deref().unwrap_or("")),
         "labels" => drv_labels::run(&mut out, seed, thorough, scn.as_deref()),
         "ext" => drv_ext::run(&mut out, seed, thorough),
         "hdr" => drv_tables::hdr(&mut out),
